@@ -9,6 +9,7 @@ import Hdl21Model.Drv.C04
 import Hdl21Model.Drv.C16
 import Hdl21Model.Drv.C19
 import Hdl21Model.Drv.C17
+import Hdl21Model.Drv.C15
 open Lean
 
 /-- Line protocol: one JSON object per input line `{"prop": "C03", "op": ..., ...}`,
@@ -28,6 +29,7 @@ def dispatch (j : Json) : Except String Json := do
   | "C16" => Hdl21.Drv.C16.handle op j
   | "C19" => Hdl21.Drv.C19.handle op j
   | "C17" => Hdl21.Drv.C17.handle op j
+  | "C15" => Hdl21.Drv.C15.handle op j
   | "SEM" => Hdl21.Drv.Sem.handle op j
   | _ => .error s!"unknown prop {prop}"
 
